@@ -54,6 +54,9 @@ func cloneCall(c spec.Call) spec.Call {
 	for i := range c.Edges {
 		d.Edges[i] = append([]string(nil), c.Edges[i]...)
 	}
+	if c.Opts.Sizes2 != nil {
+		d.Opts.Sizes2 = append([]spec.NodeSize{}, c.Opts.Sizes2...)
+	}
 	if c.Opts.Sizes != nil {
 		d.Opts.Sizes = append([]spec.NodeSize{}, c.Opts.Sizes...)
 	}
@@ -107,6 +110,11 @@ func shrinkCall(c spec.Call, test func(spec.Call) bool, budget time.Duration) sp
 	for i := range t.Edges {
 		t.Edges[i] = []string{m[t.Edges[i][0]], m[t.Edges[i][1]]}
 	}
+	for i := range t.Opts.Sizes2 {
+		if n, ok := m[t.Opts.Sizes2[i].ID]; ok {
+			t.Opts.Sizes2[i].ID = n
+		}
+	}
 	for i := range t.Opts.Sizes {
 		if n, ok := m[t.Opts.Sizes[i].ID]; ok {
 			t.Opts.Sizes[i].ID = n
@@ -130,6 +138,7 @@ func shrinkCall(c spec.Call, test func(spec.Call) bool, budget time.Duration) sp
 
 func optionSimplifiers() []func(o *spec.Options) bool {
 	return []func(o *spec.Options) bool{
+		func(o *spec.Options) bool { if o.Sizes2 == nil { return false }; o.Sizes2 = nil; return true },
 		func(o *spec.Options) bool { if o.Sizes == nil { return false }; o.Sizes = nil; return true },
 		func(o *spec.Options) bool { if o.FixedSize == nil { return false }; o.FixedSize = nil; return true },
 		func(o *spec.Options) bool { if o.VirtualOut == nil { return false }; o.VirtualOut = nil; return true },
